@@ -91,6 +91,10 @@ def World.modF (w : World τ) (i : Nat) (g : Fr τ → Fr τ) : World τ :=
 
 def frameOf (f : Fr τ) (idx : Nat) : Frame := f.frames.getD idx {}
 
+def setStatus (i : Nat) (st : Status) (w : World τ) : World τ := w.modF i fun f => { f with status := st }
+def setDesire (i : Nat) (c : Control) (w : World τ) : World τ := w.modF i fun f => { f with desire := c }
+def bumpRecurred (i : Nat) (w : World τ) : World τ := w.modF i fun f => { f with recurred := f.recurred + 1 }
+
 /-- one action: counted, then either the planned exception or its effect -/
 def execAct (i f : Nat) (ctx : Ctx) (a : Act) (w : World τ) : Res τ :=
   let w := { w with count := w.count + 1 }
@@ -102,19 +106,23 @@ where
     match a with
     | .record => { w with trace := w.trace ++ [.mark i f ctx] }
     | .step => w
-    | .bid ts c => ts.foldl (fun w t => w.modF t fun fr => { fr with desire := c }) w
+    | .bid ts c => ts.foldl (fun w t => setDesire t c w) w
 
 def runActs (i f : Nat) (ctx : Ctx) : List Act → World τ → Res τ
   | [], w => ⟨w, none⟩
   | a :: rest, w => (execAct i f ctx a w).andThen (runActs i f ctx rest)
 
+/-- the actions of a frame in a context -/
+def actsOf (fr : Frame) : Ctx → List Act
+  | .enter => fr.enacts
+  | .recur => fr.reacts
+  | .exit => fr.exacts
+
 /-- `Frame.enter()` / `recur()` / `exit()` for each frame of the list, in list order -/
 def runFrames (i : Nat) (ctx : Ctx) : List Nat → World τ → Res τ
   | [], w => ⟨w, none⟩
   | f :: rest, w =>
-    let fr := frameOf (w.framers i) f
-    let acts := match ctx with | .enter => fr.enacts | .recur => fr.reacts | .exit => fr.exacts
-    (runActs i f ctx acts w).andThen (runFrames i ctx rest)
+    (runActs i f ctx (actsOf (frameOf (w.framers i) f) ctx) w).andThen (runFrames i ctx rest)
 
 /-- ancestors of `f`, top first, `f` last (`fuel` bounds the climb) -/
 def headOf (frames : List Frame) : Nat → Nat → List Nat
@@ -191,41 +199,57 @@ def precurFrames (i : Nat) : List Nat → World τ → Res τ
 
 /-- `Framer.segue()` -/
 def segue (i : Nat) (w : World τ) : Res τ :=
-  let w := w.modF i fun f => { f with recurred := f.recurred + 1 }
-  precurFrames i (w.framers i).actives w
+  precurFrames i ((bumpRecurred i w).framers i).actives (bumpRecurred i w)
 
-def setStatus (i : Nat) (st : Status) (w : World τ) : World τ := w.modF i fun f => { f with status := st }
-def setDesire (i : Nat) (c : Control) (w : World τ) : World τ := w.modF i fun f => { f with desire := c }
 
 /-- the `finally:` of `makeRunner` when an exception leaves the generator -/
 def die (i : Nat) (w : World τ) : World τ :=
   w.modF i fun f => { f with desire := .abort, status := .aborted, alive := false }
 
-/-- one resumption of `Framer.makeRunner` (no entry guards: `checkStart()` is true) -/
+/-! the branches of `Framer.makeRunner` (no entry guards: `checkStart()` is true) -/
+
+/-- RUN while running/started: `segue(); recur(); status = RUNNING` -/
+def runLive (i : Nat) (w : World τ) : Res τ :=
+  ((segue i w).andThen (recur i)).andThen fun w => ⟨setStatus i .running w, none⟩
+
+/-- any control in status ABORTED: `desire = ABORT; status = ABORTED` -/
+def bad (i : Nat) (w : World τ) : Res τ := ⟨setStatus i .aborted (setDesire i .abort w), none⟩
+
+/-- START while stopped/readied: `desire = RUN; enterAll(); recur(); status = STARTED` -/
+def startIdle (i : Nat) (w : World τ) : Res τ :=
+  ((enterAll i (setDesire i .run w)).andThen (recur i)).andThen fun w => ⟨setStatus i .started w, none⟩
+
+/-- STOP while running/started: `desire = STOP; exitAll(abort=True); status = STOPPED` -/
+def stopLive (i : Nat) (w : World τ) : Res τ :=
+  (exitAll i (setDesire i .stop w)).andThen fun w => ⟨setStatus i .stopped w, none⟩
+
+/-- ABORT (or an unknown control): `exitAll()` if running/started; `desire = ABORT; status = ABORTED` -/
+def abortAny (i : Nat) (live : Bool) (w : World τ) : Res τ :=
+  (if live then exitAll i w else ⟨w, none⟩).andThen fun w => ⟨setStatus i .aborted (setDesire i .abort w), none⟩
+
+/-- one resumption of `Framer.makeRunner` -/
 def table (i : Nat) (c : Control) (w : World τ) : Res τ :=
   let st := (w.framers i).status
   let live : Bool := st = .running ∨ st = .started
   let idle : Bool := st = .stopped ∨ st = .readied
-  let bad (w : World τ) : Res τ := ⟨setStatus i .aborted (setDesire i .abort w), none⟩
   match c with
   | .run =>
-    if live then ((segue i w).andThen (recur i)).andThen fun w => ⟨setStatus i .running w, none⟩
+    if live then runLive i w
     else if idle then ⟨setDesire i .start w, none⟩
-    else bad w
+    else bad i w
   | .ready =>
     if idle then ⟨setStatus i .readied w, none⟩
     else if live then ⟨w, none⟩
-    else bad w
+    else bad i w
   | .start =>
-    if idle then ((enterAll i (setDesire i .run w)).andThen (recur i)).andThen fun w => ⟨setStatus i .started w, none⟩
+    if idle then startIdle i w
     else if live then ⟨setDesire i .run w, none⟩
-    else bad w
+    else bad i w
   | .stop =>
-    if live then (exitAll i (setDesire i .stop w)).andThen fun w => ⟨setStatus i .stopped w, none⟩
+    if live then stopLive i w
     else if idle then ⟨w, none⟩
-    else bad w
-  | .abort | .other =>
-    (if live then exitAll i w else ⟨w, none⟩).andThen fun w => ⟨setStatus i .aborted (setDesire i .abort w), none⟩
+    else bad i w
+  | .abort | .other => abortAny i live w
 
 def send (i : Nat) (c : Control) (w : World τ) : Sent × World τ :=
   if !(w.framers i).alive then (.stopIteration, w)
@@ -260,13 +284,14 @@ structure Program (τ : Type) where
   deriving Repr, Inhabited
 
 /-- `over` points to an earlier frame (so the frames form a forest), ids in range, transitions to
-existing frames, every framer has a frame -/
+existing frames, every framer has a frame and is in its initial run-time state -/
 def Program.wellFormed (p : Program τ) : Bool :=
   let n := p.framers.length
   let placed := p.houses.flatMap House.taskables
   placed.all (· < n) && placed.eraseDups.length == placed.length &&
   p.framers.all (fun f =>
     !f.frames.isEmpty && decide (f.first < f.frames.length) &&
+    f.actives.isEmpty && f.alive && f.status == .stopped &&
     (List.range f.frames.length).all (fun idx =>
       let fr := frameOf f idx
       (match fr.over with | some o => decide (o < idx) | none => true) &&
@@ -276,7 +301,7 @@ def Program.wellFormed (p : Program τ) : Bool :=
 
 def Program.world (p : Program τ) : World τ :=
   { n := p.framers.length
-    framers := fun i => p.framers.getD i { active := false, period := TimeLike.zero, frames := [], alive := false }
+    framers := fun i => p.framers.getD i { active := false, period := TimeLike.zero, frames := [], alive := false, status := .aborted }
     crash := p.crash, boundaryCrash := p.boundaryCrash }
 
 def Program.run (p : Program τ) (fuel : Nat) : Outcome × St τ (World τ) :=
